@@ -91,3 +91,108 @@ theorem nodup_length_eq_filter_range (l : List Nat) (n : Nat) (hn : l.Nodup) (hb
   exact hp.length_eq
 
 end BGV
+
+namespace BGV
+
+/-! ### sums over an index range and filtered lengths (undirected counting) -/
+
+theorem sum_map_range_change (n a : Nat) (f f' : Nat → Nat) (ha : a < n) (h : ∀ k, k ≠ a → f' k = f k) :
+    ((List.range n).map f').sum + f a = ((List.range n).map f).sum + f' a := by
+  induction n with
+  | zero => omega
+  | succ n ih =>
+    rw [List.range_succ, List.map_append, List.map_append, List.sum_append, List.sum_append]
+    simp only [List.map_cons, List.map_nil, List.sum_cons, List.sum_nil, Nat.add_zero]
+    by_cases han : a = n
+    · subst han
+      have : (List.range a).map f' = (List.range a).map f := by
+        apply List.map_congr_left
+        intro k hk
+        have : k < a := by simpa using hk
+        exact h k (by omega)
+      rw [this]; omega
+    · have := ih (by omega)
+      have hn := h n (fun e => han e.symm)
+      omega
+
+theorem sum_map_range_congr (n : Nat) (f f' : Nat → Nat) (h : ∀ k, k < n → f' k = f k) :
+    ((List.range n).map f').sum = ((List.range n).map f).sum := by
+  congr 1
+  apply List.map_congr_left
+  intro k hk
+  exact h k (by simpa using hk)
+
+theorem length_filter_append_singleton {α} (l : List α) (x : α) (p : α → Bool) :
+    ((l ++ [x]).filter p).length = (l.filter p).length + (if p x then 1 else 0) := by
+  rw [List.filter_append, List.length_append]
+  by_cases hx : p x = true <;> simp [List.filter, hx]
+
+/-- removing the (at most one) occurrence of `x` from a duplicate-free list -/
+theorem length_filter_ne_of_nodup (l : List Nat) (x : Nat) (p : Nat → Bool) (hn : l.Nodup) :
+    ((l.filter (· != x)).filter p).length + (if x ∈ l ∧ p x = true then 1 else 0) = (l.filter p).length := by
+  induction l with
+  | nil => simp
+  | cons y ys ih =>
+    have hn' := List.nodup_cons.1 hn
+    have := ih hn'.2
+    by_cases hyx : y = x
+    · subst hyx
+      have hnot : y ∉ ys := hn'.1
+      have hf : ys.filter (· != y) = ys := by
+        apply List.filter_eq_self.2
+        intro a ha; simp; intro e; subst e; exact hnot ha
+      simp only [List.filter_cons, bne_self_eq_false, Bool.false_eq_true, if_false, hf, List.mem_cons, true_or, true_and]
+      by_cases hp : p y = true <;> simp [hp]
+    · have hb : (y != x) = true := by simpa using hyx
+      simp only [List.filter_cons, hb, if_true, List.mem_cons]
+      have hor : (x = y ∨ x ∈ ys) ↔ x ∈ ys := by
+        constructor
+        · rintro (e | h); exact absurd e.symm hyx; exact h
+        · exact Or.inr
+      by_cases hp : p y = true
+      · simp only [hp, if_true, List.length_cons, hor] at this ⊢; omega
+      · simp only [hp, Bool.false_eq_true, if_false, hor] at this ⊢; exact this
+
+theorem length_filter_partition {α} (l : List α) (q p : α → Bool) :
+    ((l.filter q).filter p).length + ((l.filter (fun a => !q a)).filter p).length = (l.filter p).length := by
+  induction l with
+  | nil => rfl
+  | cons y ys ih =>
+    by_cases hq : q y = true
+    · by_cases hp : p y = true
+      · simp only [List.filter_cons, hq, hp, if_true, Bool.not_true, Bool.false_eq_true, if_false, List.length_cons]
+        omega
+      · simp only [List.filter_cons, hq, hp, if_true, Bool.not_true, Bool.false_eq_true, if_false]
+        exact ih
+    · have hq' : q y = false := by simpa using hq
+      by_cases hp : p y = true
+      · simp only [List.filter_cons, hq', hp, if_true, Bool.not_false, Bool.false_eq_true, if_false, List.length_cons]
+        omega
+      · simp only [List.filter_cons, hq', hp, if_true, Bool.not_false, Bool.false_eq_true, if_false]
+        exact ih
+
+theorem length_filter_ne_eq (l : List Nat) (x : Nat) (hn : l.Nodup) :
+    (l.filter (· != x)).length + (if x ∈ l then 1 else 0) = l.length := by
+  have := length_filter_ne_of_nodup l x (fun _ => true) hn
+  have ht : ∀ (m : List Nat), m.filter (fun _ => true) = m := fun m => List.filter_eq_self.2 (fun _ _ => rfl)
+  rw [ht, ht] at this
+  simpa using this
+
+theorem sum_eq_zero_of_forall (l : List Nat) (h : ∀ x ∈ l, x = 0) : l.sum = 0 := by
+  induction l with
+  | nil => rfl
+  | cons a as ih =>
+    have h1 := h a (by simp)
+    have h2 := ih (fun x hx => h x (by simp [hx]))
+    simp [h1, h2]
+
+theorem le_sum_of_mem' (l : List Nat) (x : Nat) (h : x ∈ l) : x ≤ l.sum := by
+  induction l with
+  | nil => simp at h
+  | cons a as ih =>
+    simp only [List.sum_cons]
+    rcases List.mem_cons.1 h with rfl | h
+    · omega
+    · have := ih h; omega
+
+end BGV
